@@ -89,6 +89,6 @@ func l1ClassifyTagCase(c l1TagCase) (bool, []string) {
 func TestL1Tag(t *testing.T) {
 	pbt.Run(t, pbt.Spec[l1TagCase]{
 		ID: "C11", Name: "l1-tag", Gen: l1GenTagCase, Run: l1RunTagCase, Classify: l1ClassifyTagCase,
-		Quick: 16000, Thorough: 100000,
+		Quick: 16000, Thorough: 40000,
 	})
 }
